@@ -52,6 +52,32 @@ def _representation_changed(ctx, rid):
                 "representation and cannot judge another one" % rid)
 
 
+def writer_functions(ctx):
+    """the writer operations of lr_guarded: modify(), and whatever else (added later) stores a protocol flag or uses one
+    of the two copies as non-const - each of them is held to the whole writer protocol"""
+    key = "_lr_writers"
+    if key in ctx.__dict__:
+        return ctx.__dict__[key]
+    out = []
+    for f in ctx.fb.functions(rec=LR):
+        if f.kind in ("ctor", "dtor") or f.is_lambda:
+            continue
+        w = f.name == "modify"
+        if not w:
+            for op in atomic_ops(f):
+                fld = atomic_field_of(f, op)
+                if fld and fld[0] == LR and fld[1] in FLAGS and op["op"] != "load":
+                    w = True
+        if not w:
+            for st in field_refs(f, LR):
+                if st["m"]["name"] in ("m_left", "m_right") and effective_access(ctx.eng, f, st)[0] not in READ_KINDS:
+                    w = True
+        if w:
+            out.append(f)
+    ctx.__dict__[key] = out
+    return out
+
+
 def lr_functions(ctx, name):
     return list(ctx.fb.functions(rec=LR, name=name))
 
@@ -84,7 +110,7 @@ def modify_rules(ctx):
     ctx.rule("C03.drain", "between the flip and the second application each reader counter is observed zero by a "
              "loop that exits only on zero; the second application targets the other copy", floor=8)
     eng = ctx.eng
-    fs = lr_functions(ctx, "modify")
+    fs = writer_functions(ctx)
     if not fs:
         ctx.broken("lr_guarded::modify not instantiated")
     for f in fs:
@@ -116,6 +142,8 @@ def modify_rules(ctx):
                     ok = la.holds(e[3], "this.m_writeMutex", "X")
                     ctx.ob("C03.wmutex", ok, f.loc(e[4]), "%s in modify happens under m_writeMutex" % e[0],
                            "" if ok else "write mutex not held", fn=f.label, inst=f.qname)
+            if not applies and not st_rl and not st_cl and f.name != "modify":
+                continue        # a path of a later writer operation that gives up before it starts (a failed try-lock)
             if rl is None and len(applies) == 2 and len(st_rl) == 1:
                 ctx.unknown("C03.first: cannot resolve the value of m_readingLeft along a path of %s" % f.label)
                 continue
@@ -312,9 +340,13 @@ def who(ctx):
             if fld is None or fld[0] != LR or op["op"] == "load":
                 continue
             if fld[1] in FLAGS:
-                ok = f.name == "modify" and op["op"] == "store"
-                ctx.ob(rid, ok, f.loc(op["st"]), "%s is stored only by modify" % fld[1], "" if ok else
-                       "%s in %s" % (op["name"], f.name), fn=f.label, inst=f.qname)
+                # by a writer operation, i.e. with m_writeMutex held exclusively (every such operation is also held to the
+                # writer protocol: writer_functions())
+                la_ = eng.locks(f)
+                pos_ = f.pos_of(op["st"])
+                ok = op["op"] == "store" and pos_ is not None and la_.holds(pos_, "this.m_writeMutex", "X")
+                ctx.ob(rid, ok, f.loc(op["st"]), "%s is stored only by a writer operation holding m_writeMutex" % fld[1], "" if ok else
+                       "%s in %s without the write mutex" % (op["name"], f.name), fn=f.label, inst=f.qname)
             elif fld[1] in COUNTERS:
                 ok = f.name == "lock_shared" and op["name"] in ("operator++", "fetch_add")
                 ctx.ob(rid, ok, f.loc(op["st"]), "%s is only incremented, and only by lock_shared" % fld[1],
@@ -327,9 +359,11 @@ def who(ctx):
                 ctx.ob(rid, True, f.loc(st), "%s is only read / handed out as const outside modify" % st["m"]["name"],
                        fn=f.label, inst=f.qname)
                 continue
-            ok = f.name == "modify"
-            ctx.ob(rid, ok, f.loc(st), "%s is written only through modify's write pointers" % st["m"]["name"],
-                   "" if ok else "non-const use (%s) in %s" % (acc, f.name), fn=f.label, inst=f.qname)
+            la_ = eng.locks(f)
+            pos_ = f.pos_of(st)
+            ok = pos_ is not None and la_.holds(pos_, "this.m_writeMutex", "X")
+            ctx.ob(rid, ok, f.loc(st), "%s is used as non-const only by a writer operation holding m_writeMutex" % st["m"]["name"],
+                   "" if ok else "non-const use (%s) in %s without the write mutex" % (acc, f.name), fn=f.label, inst=f.qname)
 
 
 def _is_moved(f, e):
@@ -408,7 +442,7 @@ def handler_rules(ctx, rid="C03.handlers"):
     """the catch handlers of modify write only through the pointer that is being applied in their try block
     (the copy readers are not directed to at that point)"""
     ctx.rule(rid, "exception handlers of modify never write the copy readers are currently directed to", floor=4)
-    for f in lr_functions(ctx, "modify"):
+    for f in writer_functions(ctx):
         for a in _applications(f):
             gr = guard_recovery(f, a) if _enclosing_try(f, a) is None else None
             if gr is None:
@@ -484,7 +518,7 @@ def _captured_exception_rethrown(ctx, f, tr, hid):
 def lr_handlers(ctx, rid="C20.lr"):
     ctx.rule(rid, "lr_guarded::modify: both applications are covered by catch(...) handlers that restore the written copy "
              "from the other copy and rethrow; the first application precedes every flag store", floor=8)
-    fs = lr_functions(ctx, "modify")
+    fs = writer_functions(ctx)
     if not fs:
         ctx.broken("lr_guarded::modify not instantiated")
     for f in fs:
